@@ -6,6 +6,6 @@
 EXTENDS Schedule, Json
 CfgId(c) == ToString(IF c.kind = "tdpos" THEN 1 ELSE IF c.kind = "xpoa" THEN 2 ELSE 3) \o
             ToString(c.period) \o ToString(c.blockNum) \o ToString(c.n) \o ToString(c.alt) \o ToString(c.termInt) \o
-            ToString(c.init % Ms)
+            ToString(c.init % Ms) \o ToString(c.sid) \o ToString(c.start) \o ToString(c.hgt) \o ToString(c.nodeAt)
 Dump == Done => JsonSerialize("out/b_" \o CfgId(cfg) \o ".json", hist)
 =============================================================================
